@@ -24,14 +24,14 @@ def x_obligations(tier):
             o.append(Obl(f"C13-entry-unfold[search#{i},kw={k1}{k2}]", M, "entry_unfold", env={"VF_IDX": str(i), "VF_KW1": str(k1), "VF_KW2": str(k2)}, timeout=T, family="C13-entry",
                          bound="unfold_search(s, do_uniquify, do_extrapolate) twice, all 16 flag combinations"))
     o.append(Obl("C13-entry-shared", M, "entry_sid_shared", timeout=T, family="C13-entry", bound="7 x 7 Sid strings, mutation of returned dictionaries between calls"))
-    NCALLS = 32
+    NCALLS = 35
     for i in range(NCALLS):
         for first in (("local", "server") if tier == "thorough" or i in (9, 11, 13, 16) else ("local",)):
             o.append(Obl(f"C13-pair[first={i},loaded-first={first}]", M, "pair", env={"VF_IDX": str(i), "VF_FIRST": first}, timeout=T, family="C13-pair",
-                         bound=f"history (call #{i}, call j) for every j of a 32-call alphabet covering all cached entry points, flags and configurations; path configuration '{first}' loaded first"))
+                         bound=f"history (call #{i}, call j) for every j of a 35-call alphabet covering all cached entry points, flags and configurations; path configuration '{first}' loaded first"))
     if tier == "thorough":
         for i in range(NCALLS):
-            o.append(Obl(f"C13-triple[first={i}]", M, "triple", env={"VF_IDX": str(i)}, timeout=T, family="C13-pair", bound="histories of 3 calls over the 32-call alphabet"))
+            o.append(Obl(f"C13-triple[first={i}]", M, "triple", env={"VF_IDX": str(i)}, timeout=T, family="C13-pair", bound="histories of 3 calls over the 35-call alphabet"))
     for sid, epre, esuf, fixed in [("h/a/x", "h/a/", "", "h/a/x"), ("h/s/q1/v1/c", "h/s/q1/v1/", "", "h/s/q1/v1/c")]:
         o.append(Obl(f"C13-data-change[{sid},{epre!r}+a]", "xhair.obl.c12", "sid_laws_after_change", env={"VF_SID": sid, "VF_EPRE": epre, "VF_ESUF": esuf, "VF_FIXED": fixed, "VF_N": "1", "VF_CACHES": "1"},
                      timeout=60 if tier == "quick" else T, expect="find", family="C13-entry", bound="exists / siblings / children before an entity is created, after, and after it is removed again -- caches ON (keys are realised: bug-hunt)"))
